@@ -1064,7 +1064,17 @@ def m_pow(I, a, k):
     cy = y.concrete()
     if cy is not None and cy == 1:
         return SNum(x.real(), "float")
-    return SNum(upow(x.real(), y.real()), "float")
+    xr, yr = x.real(), y.real()
+    # CPython: math.pow(0.0, negative) and math.pow(negative, non-integer) are domain errors
+    r = upow(xr, yr)
+    # ghost: the applications (attempted ones included) of the uninterpreted real power function on
+    # this path, for the contracts that instantiate its laws on them
+    I.P.ghost.setdefault("upow_apps", []).append((xr, yr, r))
+    if I.P.branch(z3.And(xr == 0, yr < 0)):
+        I.raise_("ValueError", "math domain error")
+    if I.P.branch(z3.And(xr < 0, yr != z3.ToReal(z3.ToInt(yr)))):
+        I.raise_("ValueError", "math domain error")
+    return SNum(r, "float")
 
 
 def m_floor(I, a, k):
@@ -1182,7 +1192,67 @@ TYPE_CALLS = {
 for _e in BUILTIN_EXC:
     TYPE_CALLS[_e] = _exc_ctor(_e)
 
+def f_reduce(I, a, k):
+    """functools.reduce over an iterable of concrete length"""
+    f = a[0]
+    items = I.iterate(a[1])
+    if len(a) > 2:
+        acc = a[2]
+    elif items:
+        acc, items = items[0], items[1:]
+    else:
+        I.raise_("TypeError", "reduce() of empty iterable with no initial value")
+    for x in items:
+        acc = I.call(f, [acc, x], {})
+    return acc
+
+
+def op_iconcat(I, a, k):
+    """operator.iconcat(a, b): a += b"""
+    import ast as _ast
+
+    x, y = a
+    if isinstance(x, SRef) and isinstance(x.o, HList):
+        I.call(I.getattr(x, "extend"), [y], {})
+        return x
+    return I.binop(_ast.Add(), x, y, True)
+
+
+def op_binop(cls):
+    def f(I, a, k):
+        return I.binop(cls(), a[0], a[1])
+
+    return f
+
+
+def it_chain(I, a, k):
+    out = []
+    for it in a:
+        out.extend(I.iterate(it))
+    return SRef(I.P.alloc(HList(out)))
+
+
+def it_chain_from_iterable(I, a, k):
+    out = []
+    for it in I.iterate(a[0]):
+        out.extend(I.iterate(it))
+    return SRef(I.P.alloc(HList(out)))
+
+
+import ast as _ast_mod
+
 EXTERNALS = {
+    "functools.reduce": f_reduce,
+    "operator.iconcat": op_iconcat,
+    "operator.concat": op_binop(_ast_mod.Add),
+    "operator.add": op_binop(_ast_mod.Add),
+    "operator.sub": op_binop(_ast_mod.Sub),
+    "operator.mul": op_binop(_ast_mod.Mult),
+    "operator.truediv": op_binop(_ast_mod.Div),
+    "operator.floordiv": op_binop(_ast_mod.FloorDiv),
+    "itertools.chain": it_chain,
+    "chain.from_iterable": it_chain_from_iterable,
+    "itertools.chain.from_iterable": it_chain_from_iterable,
     # typing / decorators dropped by extraction
     "typing.cast": lambda I, a, k: a[1],
     "functools.total_ordering": noop_decorator,
